@@ -772,6 +772,15 @@ class CeiloChunk(AbstractChunk):
             raise AmpycloudError('Slicing not yet done. You cannot find groups without ' +
                                  'finding slices first !')
 
+        # If the layering was already done, refuse to re-group *before* touching anything.
+        # Re-grouping would discard the layering information (see _setup_sligrolay_pdf()).
+        if self._layers is not None:
+            raise AmpycloudError(
+                'Layering already done.'
+                ' If you re-compute your groups now, you will loose the'
+                ' layering information !'
+            )
+
         # First, make sure that we can keep track of the isolation status of slices.
         self._slices['isolated'] = None
 
